@@ -88,7 +88,7 @@ func runC25(c *Ctx) {
 			return out
 		}
 		// the counting may live in a helper of the package that returns the size of the set
-		setFn := c.relocateBy(cc, func(g *ssa.Function) bool { return len(mapsOf(g)) == 1 })
+		setFn, setVia := c.relocateVia(cc, func(g *ssa.Function) bool { return len(mapsOf(g)) == 1 })
 		sets := mapsOf(setFn)
 		if len(sets) != 1 {
 			c.R.Check("G-quorum", "ConfirmContextCheck|signer set", false, c.pos(cc.Pos()), fmt.Sprintf("%d maps", len(sets)))
@@ -115,7 +115,9 @@ func runC25(c *Ctx) {
 						return false, false
 					})
 					hs := loopHeaders(up.Block())
-					c.R.Check("G-quorum", "ConfirmContextCheck|counting loop over confirm.Votes", len(hs) == 1 && loopRangesOver(hs[0], fieldIs("Confirm", "Votes")), c.posOf(up), "the counting loop ranges over confirm.Votes")
+					okVotes := false
+					withVia(setVia, func() { okVotes = len(hs) == 1 && loopRangesOver(hs[0], fieldIs("Confirm", "Votes")) })
+					c.R.Check("G-quorum", "ConfirmContextCheck|counting loop over confirm.Votes", okVotes, c.posOf(up), "the counting loop ranges over confirm.Votes")
 				}
 			}
 			c.R.Check("G-quorum", "ConfirmContextCheck|single insertion site", n == 1, c.pos(cc.Pos()), fmt.Sprintf("%d insertion sites", n))
@@ -150,10 +152,16 @@ func runC25(c *Ctx) {
 			vc := vc
 			vc.with(func() {
 				hs := loopHeaders(vc.call.Block())
+				loopFn := vc.call.Parent()
+				if len(hs) == 0 && vc.via != nil {
+					// a per-vote helper: the loop is the one around its call
+					hs = loopHeaders(vc.via.Block())
+					loopFn = cs
+				}
 				okDom := len(hs) >= 1 && loopRangesOver(hs[0], fieldIs("Confirm", "Votes"))
 				c.R.Check("G-sanity", "ConfirmSanityCheck|signature loop over confirm.Votes", okDom, c.posOf(vc.call), "the loop that verifies the vote signatures ranges over confirm.Votes itself (every vote, each through its own element)")
 				if okDom {
-					bad := c.earlyLoopExits(vc.call.Parent(), hs[0])
+					bad := c.earlyLoopExits(loopFn, hs[0])
 					c.R.Check("G-sanity", "ConfirmSanityCheck|signature loop runs to exhaustion", len(bad) == 0, c.posOf(vc.call), fmt.Sprintf("the loop is left only when every vote was verified or with an error (early exits: %v)", bad))
 				}
 			})
